@@ -18,13 +18,14 @@ theorem firstN_put (b : Buf Nat) (n i : Nat) (x : Nat) (h : n ≤ i) : (b.put i 
 /-- `cc_array_add` below capacity: appends, allocates nothing -/
 theorem add_room (c : HCfg) (a : DArr) (x : Nat) (m : Mem) (h : a.Inv) (hr : a.size < a.cap) :
     (a.add c x m).1 = .ok ∧ (a.add c x m).2.1.Inv ∧ (a.add c x m).2.1.contents = a.contents ++ [x] ∧
-    (a.add c x m).2.1.size = a.size + 1 ∧ (a.add c x m).2.1.cap = a.cap ∧ (a.add c x m).2.2 = m := by
+    (a.add c x m).2.1.size = a.size + 1 ∧ (a.add c x m).2.1.cap = a.cap ∧ (a.add c x m).2.2 = m ∧
+    (a.add c x m).2.1.triple = a.triple := by
   obtain ⟨h1, h2, h3⟩ := h
   have hge : ¬ a.size ≥ a.cap := by omega
   have hchk : decide (a.size < a.buf.length) = true := by simp; omega
   unfold add
   simp only [hge, if_false, ne_eq, not_true_eq_false, hchk, Mem.check_true]
-  refine ⟨trivial, ⟨by simp only; omega, by simp [h2], h3⟩, ?_, trivial, trivial, trivial⟩
+  refine ⟨trivial, ⟨by simp only; omega, by simp [h2], h3⟩, ?_, trivial, trivial, trivial, trivial⟩
   unfold contents
   simp only
   rw [firstN_succ, firstN_put _ _ _ _ (Nat.le_refl _), Buf.get_put_eq _ _ _ (by omega)]
@@ -32,16 +33,16 @@ theorem add_room (c : HCfg) (a : DArr) (x : Nat) (m : Mem) (h : a.Inv) (hr : a.s
 /-- the `cc_array_add` loop while there is room -/
 theorem addAll_room (c : HCfg) (xs : List Nat) (a : DArr) (m : Mem) (h : a.Inv) (hr : a.size + xs.length ≤ a.cap) :
     (addAll c xs a m).1 = .ok ∧ (addAll c xs a m).2.1.Inv ∧ (addAll c xs a m).2.1.contents = a.contents ++ xs ∧
-    (addAll c xs a m).2.1.cap = a.cap ∧ (addAll c xs a m).2.2 = m := by
+    (addAll c xs a m).2.1.cap = a.cap ∧ (addAll c xs a m).2.2 = m ∧ (addAll c xs a m).2.1.triple = a.triple := by
   induction xs generalizing a with
   | nil => simp [addAll, h]
   | cons x xs ih =>
     simp only [List.length_cons] at hr
-    obtain ⟨a1, a2, a3, a4, a5, a6⟩ := add_room c a x m h (by omega)
+    obtain ⟨a1, a2, a3, a4, a5, a6, a7⟩ := add_room c a x m h (by omega)
     unfold addAll
     simp only [a1, ne_eq, not_true_eq_false, if_false, a6]
-    obtain ⟨b1, b2, b3, b4, b5⟩ := ih (a.add c x m).2.1 a2 (by omega)
-    refine ⟨b1, b2, by rw [b3, a3]; simp, by rw [b4, a5], b5⟩
+    obtain ⟨b1, b2, b3, b4, b5, b6⟩ := ih (a.add c x m).2.1 a2 (by omega)
+    refine ⟨b1, b2, by rw [b3, a3]; simp, by rw [b4, a5], b5, by rw [b6, a7]⟩
 
 end CC.DArr
 
@@ -53,14 +54,15 @@ blocks), holds one element per entry in walk order and has capacity `size`; an e
 rejected with `CC_ERR_INVALID_CAPACITY` before anything is allocated; a refused allocation leaves
 nothing behind. -/
 theorem collect_spec (c : HCfg) (t : HashTable) (xs : List Nat) (m : Mem) (h : t.Inv c)
-    (hxs : xs.length = t.size) (hbig : 3 * t.size ≤ Gen.CC_MAX_ELEMENTS) :
+    (hxs : xs.length = t.size) (hbig : 8 * t.size ≤ Gen.CC_MAX_ELEMENTS) :
     (t.size = 0 → t.collect c xs m = (.errInvalidCapacity, none, m)) ∧
     (0 < t.size →
       ((t.collect c xs m).1 = .ok ∨ (t.collect c xs m).1 = .errAlloc) ∧
-      ((t.collect c xs m).1 ≠ .ok → (t.collect c xs m).2.1 = none ∧ (t.collect c xs m).2.2.live = m.live) ∧
+      ((t.collect c xs m).1 ≠ .ok → (t.collect c xs m).2.1 = none ∧
+          liveOf (t.collect c xs m).2.2 t.triple = liveOf m t.triple) ∧
       (∀ a, (t.collect c xs m).2.1 = some a → (t.collect c xs m).1 = .ok ∧ a.Inv ∧ a.contents = xs ∧ a.cap = t.size ∧
-          (t.collect c xs m).2.2.live = m.live + 2) ∧
-      (t.collect c xs m).2.2.fault = m.fault ∧ (t.collect c xs m).2.2.libc = m.libc ∧
+          liveOf (t.collect c xs m).2.2 t.triple = liveOf m t.triple + 2 ∧ a.triple = t.triple) ∧
+      (t.collect c xs m).2.2.fault = m.fault ∧
       (m.sched = [] → (t.collect c xs m).1 = .ok)) := by
   obtain ⟨hcap, hlen, hsize, hok, hnd, hthr⟩ := h
   have hchk : decide (t.capacity ≤ t.buckets.length) = true := by simp; omega
@@ -73,48 +75,48 @@ theorem collect_spec (c : HCfg) (t : HashTable) (xs : List Nat) (m : Mem) (h : t
       intro h
       rcases h with h | h
       · omega
-      · have h3 : 3 ≤ Gen.CC_MAX_ELEMENTS / t.size := (Nat.le_div_iff_mul_le hpos).mpr hbig
+      · have h3 : 3 ≤ Gen.CC_MAX_ELEMENTS / t.size := (Nat.le_div_iff_mul_le hpos).mpr (by omega)
         omega
+    have hnb : ¬ t.size > Gen.CC_MAX_ELEMENTS / 8 := by
+      have : t.size ≤ Gen.CC_MAX_ELEMENTS / 8 := (Nat.le_div_iff_mul_le (by omega)).mpr (by omega)
+      omega
     unfold collect DArr.new
-    simp only [hnz, if_false]
-    cases h1 : m.alloc.1 with
+    simp only [hnz, hnb, if_false]
+    cases h1 : (m.allocT t.triple).1 with
     | false =>
-      have e1 := Mem.alloc_fst_false m h1
+      have e1 := allocT_false m t.triple h1
       simp only [Bool.not_false, if_true]
-      refine ⟨by simp, fun _ => ⟨trivial, e1.1⟩, by simp, e1.2.1, e1.2.2, ?_⟩
-      intro hs; have := (Mem.alloc_nil m hs).1; rw [h1] at this; cases this
+      refine ⟨by simp, fun _ => ⟨trivial, e1.1⟩, by simp, e1.2, ?_⟩
+      intro hs; have := (allocT_nil m t.triple hs).1; rw [h1] at this; cases this
     | true =>
-      have e1 := Mem.alloc_fst_true m h1
+      have e1 := allocT_true m t.triple h1
       simp only [Bool.not_true, Bool.false_eq_true, if_false]
-      cases h2 : m.alloc.2.alloc.1 with
+      cases h2 : ((m.allocT t.triple).2.allocT t.triple).1 with
       | false =>
-        have e2 := Mem.alloc_fst_false m.alloc.2 h2
-        have hfr := free_spec m.alloc.2.alloc.2 (by omega)
-        have hlibc : m.alloc.2.alloc.2.free.libc = m.libc := by
-          have hl : m.alloc.2.alloc.2.live ≠ 0 := by omega
-          simp [Mem.free, hl, e2.2.2, e1.2.2]
+        have e2 := allocT_false (m.allocT t.triple).2 t.triple h2
+        have hfr := freeT_spec ((m.allocT t.triple).2.allocT t.triple).2 t.triple (by omega)
         simp only [Bool.not_false, if_true]
-        refine ⟨by simp, fun _ => ⟨trivial, by rw [hfr.1]; omega⟩, by simp, by rw [hfr.2.1, e2.2.1, e1.2.1], hlibc, ?_⟩
+        refine ⟨by simp, fun _ => ⟨trivial, by rw [hfr.1]; omega⟩, by simp, by rw [hfr.2.1, e2.2, e1.2], ?_⟩
         intro hs
-        have := (Mem.alloc_nil m.alloc.2 (Mem.alloc_nil m hs).2).1; rw [h2] at this; cases this
+        have := (allocT_nil (m.allocT t.triple).2 t.triple (allocT_nil m t.triple hs).2).1; rw [h2] at this; cases this
       | true =>
-        have e2 := Mem.alloc_fst_true m.alloc.2 h2
+        have e2 := allocT_true (m.allocT t.triple).2 t.triple h2
         simp only [Bool.not_true, Bool.false_eq_true, if_false, hchk, Mem.check_true]
-        have hinv0 : (⟨0, t.size, Buf.mk t.size⟩ : DArr).Inv := ⟨by simp, by simp, hpos⟩
-        obtain ⟨b1, b2, b3, b4, b5⟩ := DArr.addAll_room c xs ⟨0, t.size, Buf.mk t.size⟩ m.alloc.2.alloc.2 hinv0 (by simp; omega)
+        have hinv0 : (⟨0, t.size, Buf.mk t.size, t.triple⟩ : DArr).Inv := ⟨by simp, by simp, hpos⟩
+        obtain ⟨b1, b2, b3, b4, b5, b6⟩ := DArr.addAll_room c xs ⟨0, t.size, Buf.mk t.size, t.triple⟩ ((m.allocT t.triple).2.allocT t.triple).2 hinv0 (by simp; omega)
         simp only [b1, ne_eq, not_true_eq_false, if_false, b5]
-        refine ⟨by simp, by simp, ?_, by rw [e2.2.1, e1.2.1], by rw [e2.2.2, e1.2.2], by simp⟩
+        refine ⟨by simp, by simp, ?_, by rw [e2.2, e1.2], by simp⟩
         intro a ha
         simp only [Option.some.injEq] at ha
         subst ha
-        refine ⟨trivial, b2, ?_, b4, by omega⟩
+        refine ⟨trivial, b2, ?_, b4, by omega, b6⟩
         rw [b3]; simp [DArr.contents, Buf.firstN]
 
 /-- `cc_hashtable_get_keys`: the keys of the map, each once -/
 theorem getKeys_spec (c : HCfg) (t : HashTable) (m : Mem) (h : t.Inv c) (a : DArr)
-    (hbig : 3 * t.size ≤ Gen.CC_MAX_ELEMENTS) (ha : (t.getKeys c m).2.1 = some a) :
+    (hbig : 8 * t.size ≤ Gen.CC_MAX_ELEMENTS) (ha : (t.getKeys c m).2.1 = some a) :
     a.contents = (Map.keys t.abs).map encKey ∧ a.Inv ∧ a.cap = t.size ∧ (t.getKeys c m).1 = .ok ∧
-    (t.getKeys c m).2.2.live = m.live + 2 := by
+    liveOf (t.getKeys c m).2.2 t.triple = liveOf m t.triple + 2 ∧ a.triple = t.triple := by
   have hw := walk_eq t h.2.1
   have hlenx : (t.walk.map (fun e => encKey e.key)).length = t.size := by rw [hw, List.length_map]; exact h.2.2.1.symm
   have hs := collect_spec c t _ m h hlenx hbig
@@ -122,15 +124,15 @@ theorem getKeys_spec (c : HCfg) (t : HashTable) (m : Mem) (h : t.Inv c) (a : DAr
   by_cases h0 : t.size = 0
   · rw [hs.1 h0] at ha; cases ha
   · obtain ⟨_, _, s3, _⟩ := hs.2 (by omega)
-    obtain ⟨r1, r2, r3, r4, r5⟩ := s3 a ha
-    refine ⟨?_, r2, r4, r1, r5⟩
+    obtain ⟨r1, r2, r3, r4, r5, r6⟩ := s3 a ha
+    refine ⟨?_, r2, r4, r1, r5, r6⟩
     rw [r3, hw]; unfold Map.keys abs; rw [List.map_map, List.map_map]; rfl
 
 /-- `cc_hashtable_get_values`: the values of the map, one per key -/
 theorem getValues_spec (c : HCfg) (t : HashTable) (m : Mem) (h : t.Inv c) (a : DArr)
-    (hbig : 3 * t.size ≤ Gen.CC_MAX_ELEMENTS) (ha : (t.getValues c m).2.1 = some a) :
+    (hbig : 8 * t.size ≤ Gen.CC_MAX_ELEMENTS) (ha : (t.getValues c m).2.1 = some a) :
     a.contents = Map.vals t.abs ∧ a.Inv ∧ a.cap = t.size ∧ (t.getValues c m).1 = .ok ∧
-    (t.getValues c m).2.2.live = m.live + 2 := by
+    liveOf (t.getValues c m).2.2 t.triple = liveOf m t.triple + 2 ∧ a.triple = t.triple := by
   have hw := walk_eq t h.2.1
   have hlenx : (t.walk.map (·.value)).length = t.size := by rw [hw, List.length_map]; exact h.2.2.1.symm
   have hs := collect_spec c t _ m h hlenx hbig
@@ -138,8 +140,8 @@ theorem getValues_spec (c : HCfg) (t : HashTable) (m : Mem) (h : t.Inv c) (a : D
   by_cases h0 : t.size = 0
   · rw [hs.1 h0] at ha; cases ha
   · obtain ⟨_, _, s3, _⟩ := hs.2 (by omega)
-    obtain ⟨r1, r2, r3, r4, r5⟩ := s3 a ha
-    refine ⟨?_, r2, r4, r1, r5⟩
+    obtain ⟨r1, r2, r3, r4, r5, r6⟩ := s3 a ha
+    refine ⟨?_, r2, r4, r1, r5, r6⟩
     rw [r3, hw]; unfold Map.vals abs; rw [List.map_map]; rfl
 
 end CC.HashTable
@@ -158,18 +160,26 @@ theorem firstN_memcpy (d s : Buf Nat) (n : Nat) (hd : n ≤ d.length) :
 
 /-- `cc_array_add` on any array built by `get_keys/get_values` (full or not) appends: a full array
 grows (its configuration carries the default expansion factor), which is what makes the derived
-array a fully usable container -/
-theorem add_spec (c : HCfg) (a : DArr) (x : Nat) (m : Mem) (h : a.Inv) (hmax : a.cap < Gen.CC_MAX_ELEMENTS) :
-    ((a.add c x m).1 = .ok → (a.add c x m).2.1.Inv ∧ (a.add c x m).2.1.contents = a.contents ++ [x]) ∧
-    ((a.add c x m).1 ≠ .ok → (a.add c x m).1 = .errAlloc ∧ (a.add c x m).2.1 = a ∧ (a.add c x m).2.2.live = m.live) ∧
+array a fully usable container.  `hmax`/`hg`: the byte-size guard of `expand_capacity`
+(`new_capacity ≤ CC_MAX_ELEMENTS / sizeof(void*)`) is not hit. -/
+theorem add_spec (c : HCfg) (a : DArr) (x : Nat) (m : Mem) (h : a.Inv) (hmax : a.cap < Gen.CC_MAX_ELEMENTS / 8)
+    (hg : c.agrow a.cap ≤ Gen.CC_MAX_ELEMENTS / 8) :
+    ((a.add c x m).1 = .ok → (a.add c x m).2.1.Inv ∧ (a.add c x m).2.1.contents = a.contents ++ [x] ∧
+        (a.add c x m).2.1.triple = a.triple) ∧
+    ((a.add c x m).1 ≠ .ok → (a.add c x m).1 = .errAlloc ∧ (a.add c x m).2.1 = a ∧
+        liveOf (a.add c x m).2.2 a.triple = liveOf m a.triple) ∧
+    ((a.add c x m).1 = .ok → liveOf (a.add c x m).2.2 a.triple = liveOf m a.triple) ∧
     (m.sched = [] → (a.add c x m).1 = .ok) ∧
-    (a.add c x m).2.2.fault = m.fault := by
+    (a.add c x m).2.2.fault = m.fault ∧
+    ((m.allocT a.triple).1 = true → (a.add c x m).1 = .ok) := by
   by_cases hroom : a.size < a.cap
-  · obtain ⟨a1, a2, a3, a4, a5, a6⟩ := add_room c a x m h hroom
-    exact ⟨fun _ => ⟨a2, a3⟩, fun hne => absurd a1 hne, fun _ => a1, by rw [a6]⟩
+  · obtain ⟨a1, a2, a3, a4, a5, a6, a7⟩ := add_room c a x m h hroom
+    exact ⟨fun _ => ⟨a2, a3, a7⟩, fun hne => absurd a1 hne, fun _ => by rw [a6], fun _ => a1, by rw [a6], fun _ => a1⟩
   · obtain ⟨h1, h2, h3⟩ := h
     have hfull : a.size = a.cap := by omega
     have hge : a.size ≥ a.cap := by omega
+    have hM : Gen.CC_MAX_ELEMENTS / 8 < Gen.CC_MAX_ELEMENTS / 2 := by decide
+    have hM2 : Gen.CC_MAX_ELEMENTS / 2 < Gen.CC_MAX_ELEMENTS := by decide
     have hne : ¬ a.cap = Gen.CC_MAX_ELEMENTS := by omega
     unfold add expand
     simp only [hge, if_true, hne, if_false]
@@ -178,19 +188,24 @@ theorem add_spec (c : HCfg) (a : DArr) (x : Nat) (m : Mem) (h : a.Inv) (hmax : a
       rw [← hnc]; split
       · split <;> omega
       · omega
-    cases ha : m.alloc.1 with
+    have hncle : ¬ nc > Gen.CC_MAX_ELEMENTS / 8 := by
+      rw [← hnc]; split
+      · rw [if_pos (by omega)]; omega
+      · omega
+    simp only [hncle, if_false]
+    cases ha : (m.allocT a.triple).1 with
     | false =>
-      have e1 := Mem.alloc_fst_false m ha
+      have e1 := allocT_false m a.triple ha
       simp only [Bool.not_false, if_true, ne_eq, reduceCtorEq, not_false_eq_true]
-      refine ⟨by simp, fun _ => ⟨trivial, trivial, e1.1⟩, ?_, e1.2.1⟩
-      intro hs; have := (Mem.alloc_nil m hs).1; rw [ha] at this; cases this
+      refine ⟨by simp, fun _ => ⟨trivial, trivial, e1.1⟩, by simp, ?_, e1.2, by simp⟩
+      intro hs; have := (allocT_nil m a.triple hs).1; rw [ha] at this; cases this
     | true =>
-      have e1 := Mem.alloc_fst_true m ha
+      have e1 := allocT_true m a.triple ha
       have hchk : (decide (a.size ≤ nc) && decide (a.size ≤ a.buf.length)) = true := by simp; omega
-      have hfr := free_spec m.alloc.2 (by omega)
+      have hfr := freeT_spec (m.allocT a.triple).2 a.triple (by omega)
       have hchk2 : decide (a.size < ((Buf.mk nc : Buf Nat).memcpy 0 a.buf 0 a.size).length) = true := by simp; omega
       simp only [Bool.not_true, Bool.false_eq_true, if_false, hchk, Mem.check_true, ne_eq, not_true_eq_false, hchk2]
-      refine ⟨fun _ => ⟨⟨by simp only; omega, by simp, by simp only; omega⟩, ?_⟩, by simp, by simp, by rw [hfr.2.1, e1.2.1]⟩
+      refine ⟨fun _ => ⟨⟨by simp only; omega, by simp, by simp only; omega⟩, ?_, trivial⟩, by simp, fun _ => by rw [hfr.1]; omega, by simp, by rw [hfr.2.1, e1.2], by simp⟩
       unfold contents; simp only
       rw [firstN_succ, firstN_put _ _ _ _ (Nat.le_refl _), Buf.get_put_eq _ _ _ (by simp; omega),
         firstN_memcpy _ _ _ (by simp; omega)]
@@ -200,24 +215,27 @@ end CC.DArr
 namespace CC.HashTable
 open CC CC.HT CC.Spec
 
-theorem DArr_new_none (cap : Nat) (m : Mem) (h : (DArr.new cap m).2.1 = none) : (DArr.new cap m).1 ≠ .ok := by
+theorem DArr_new_none (cap : Nat) (tr : Triple) (m : Mem) (h : (DArr.new cap tr m).2.1 = none) : (DArr.new cap tr m).1 ≠ .ok := by
   unfold DArr.new at h ⊢
   by_cases h0 : cap = 0 ∨ 2 ≥ Gen.CC_MAX_ELEMENTS / cap
   · simp [h0]
   · simp only [h0, if_false] at h ⊢
-    cases h1 : m.alloc.1 with
-    | false => simp
-    | true =>
-      cases h2 : m.alloc.2.alloc.1 with
+    by_cases hb : cap > Gen.CC_MAX_ELEMENTS / 8
+    · simp [hb]
+    · simp only [hb, if_false] at h ⊢
+      cases h1 : (m.allocT tr).1 with
       | false => simp
-      | true => simp [h1, h2] at h
+      | true =>
+        cases h2 : ((m.allocT tr).2.allocT tr).1 with
+        | false => simp
+        | true => simp [h1, h2] at h
 
 /-- `get_keys`/`get_values` hand out an array exactly when they report `CC_OK` -/
 theorem collect_ok_iff (c : HCfg) (t : HashTable) (xs : List Nat) (m : Mem) :
     (t.collect c xs m).1 = .ok ↔ (t.collect c xs m).2.1.isSome = true := by
   unfold collect; simp only
-  cases hn : (DArr.new t.size m).2.1 with
-  | none => simp only [Option.isSome_none, Bool.false_eq_true, iff_false]; exact DArr_new_none t.size m hn
+  cases hn : (DArr.new t.size t.triple m).2.1 with
+  | none => simp only [Option.isSome_none, Bool.false_eq_true, iff_false]; exact DArr_new_none t.size t.triple m hn
   | some a =>
     simp only
     split
